@@ -254,6 +254,19 @@ def mass_pair(cfg):
         a[g.choice(n, size=k, replace=False)] = g.uniform(0.5, 1.0, size=k)
         b[g.choice(n, size=k, replace=False)] = g.uniform(0.5, 1.0, size=k)
         a, b = a.reshape(shape), b.reshape(shape)
+    elif kind == "blocks":
+        # two axis-aligned blocks of constant density (the shape of the library's own examples); Newton runs on
+        # these go on for tens of iterations instead of ending early on a singular mobility
+        def block():
+            m = np.zeros(shape)
+            sl = []
+            for s_ in shape:
+                w_ = int(g.integers(1, max(2, s_ // 3 + 1)))
+                lo = int(g.integers(0, s_ - w_ + 1))
+                sl.append(slice(lo, lo + w_))
+            m[tuple(sl)] = 1.0
+            return m / m.sum()
+        a, b = block(), block()
     else:  # single cell to single cell
         a = np.zeros(n)
         b = np.zeros(n)
